@@ -4,7 +4,7 @@ sys.path.insert(0, "/verif/harness/props")
 from common import *
 import impl, gens, l0, peg, lexer
 
-THMS = ["C09_layout_invariance", "C09_all_queries_commute", "C09_case_invariance", "C09_fuel_independent", "C09_plain_sequence_refuted"]
+THMS = ["C09_layout_invariance", "C09_all_queries_commute", "C09_case_invariance", "C09_fuel_independent", "C09_same_derivation", "C09_plain_sequence_refuted"]
 HEADER = ("From Coq Require Import List NArith Bool.\nFrom MoSql Require Import Model.Peg Model.PegRun Model.PegSim Generated.Grammar.\nImport ListNotations.\nLocal Open Scope N_scope.\n")
 FILL_WS = ["  ", "\n", "\t", " \n ", "\r\n", "\n\n\t"]
 FILL_CM = [" /* c */ ", " -- c\n", " # c\n", "/**/", "--c\n", "#c\n", " /*c*/", " --\n", "\t/* a\nb */\n"]
@@ -61,6 +61,10 @@ class Layout:
     def variant(self, fill):
         """fill: {gap index: text} -> (sql, phi) with phi mapping positions of base to positions of the variant"""
         gaps = [fill.get(k, g) for k, g in enumerate(self.gaps)]
+        for k in fill:
+            # a comment filler glued to an operator token would change the token itself (`-` + `--c` reads as `--` + `-c`): keep them apart
+            if k > 0 and gaps[k][:1] in "-/#" and self.toks[k - 1][0] == "op":
+                gaps[k] = " " + gaps[k]
         sql = lexer.join(self.toks, gaps)
         shifts, pos = [], 0          # (start of the base gap, growth)
         for g0, g1, t in zip(self.gaps, gaps, self.toks):
@@ -238,10 +242,13 @@ def work(job):
             mb = peg.Model(T, lay.base)
             vb = mb.parse_all()
             if not commuting(reg, lay.base, var, phi, mb.log) and reg.ws_objs[T.w0].skip(var, 0) == phi(reg.ws_objs[T.w0].skip(lay.base, 0)):
-                vv = peg.Model(T, var).parse_all()
+                mvar = peg.Model(T, var)
+                vv = mvar.parse_all()
                 want = ("ok", phi(vb[1])) if vb[0] == "ok" else vb
-                if vv != want and vb[0] != "abort" and vv[0] != "abort":
-                    unexplained.append(dict(variation="theorem instance", sql=lay.base, variant=var, model_base=vb, model_variant=vv))
+                moved = {(q[0], q[1], phi(q[2])) if q[0] != "D" else ("D", phi(q[1]), phi(q[2])) for q in mb.log}
+                if vb[0] != "abort" and vv[0] != "abort" and (vv != want or mvar.log != moved):
+                    # C09_same_derivation: same outcome and exactly the moved queries
+                    unexplained.append(dict(variation="theorem instance", sql=lay.base, variant=var, model_base=vb, model_variant=vv, same_queries=(mvar.log == moved)))
     return res
 
 
